@@ -9,7 +9,7 @@ from typing import Any, Iterable
 
 from .. import build, common, gen, impl
 from ..build import Env, enc_val, py_val
-from ..engine import Prop
+from ..engine import Prop, canonical_hash
 
 common.use_repo()
 from hypergraph import AsyncRunner, SyncRunner  # noqa: E402
@@ -329,7 +329,22 @@ class C08(Prop):
         for law in obs["laws"]:
             if law[1:] != [True, True, True]:
                 return f"bind/unbind law fails for {law[0]!r}: (not required after bind, optional after bind, restored by unbind) = {law[1:]}"
+        def bypass(omitted: str, supplied: set[str]) -> str | None:
+            """A supplied name that is the output of a node consuming the omitted input: supplying it by-passes that node."""
+            for n in case["program"][-1]["nodes"]:
+                ren = dict(n.get("inRen", []))
+                ins = {ren.get(q[0], q[0]) for q in n.get("params", [])}
+                hit = set(n.get("dataOuts", [])) & supplied
+                if omitted in ins and hit:
+                    return f" — the supplied {sorted(hit)[0]!r} by-passes its producer {n['name']!r}, whose input {omitted!r} is then not demanded (entry-point by-pass)"
+            return None
+
+        req_all = set(obs["effspec"]["required"])
         for kind, r0, outcome in obs.get("derived", []):
+            if kind == "unbind-then-omit" and outcome != "MissingInputError" and case["program"][-1].get("entrypoints"):
+                note = bypass(r0, req_all - {r0})
+                if note:
+                    return f"after bind({r0}=...).unbind({r0!r}) omitting the again-required {r0!r} was not rejected (outcome {outcome})" + note
             if kind == "bind-then-omit" and outcome == "MissingInputError":
                 return f"after bind({r0}=...) the run with every other required input supplied was rejected with MissingInputError"
             if kind == "unbind-then-omit" and outcome != "MissingInputError":
@@ -340,7 +355,8 @@ class C08(Prop):
                     return f"all required inputs (and one listed entry point) supplied, yet rejected with MissingInputError; values={t['values']}"
             else:
                 if t["outcome"] != "MissingInputError":
-                    return f"required input {t['omit']!r} omitted but the call was not rejected with MissingInputError (outcome {t['outcome']})"
+                    note = bypass(t["omit"], {k for k, _ in t["values"]}) if case["program"][-1].get("entrypoints") else None
+                    return f"required input {t['omit']!r} omitted but the call was not rejected with MissingInputError (outcome {t['outcome']})" + (note or "")
                 if t["calls"] or t["events"] or t["shutdowns"]:
                     return f"rejected call invoked {t['calls']} node functions and delivered {t['events']} events / {t['shutdowns']} shutdowns"
         return None
@@ -384,6 +400,11 @@ class C08(Prop):
         if it != mt:
             return f"accept/reject per trial: impl={it} model={mt}"
         return None
+
+    def signature(self, case: dict, obs: Any, why: str) -> str:
+        if "(entry-point by-pass)" in why:
+            return "site:validate_inputs/entry-point-by-pass"      # one mechanism (known finding C08-F1), whatever the program
+        return "case:" + canonical_hash(case)
 
     def nontrivial(self, case: dict, obs: Any) -> bool:
         return "spec" in obs and bool(obs["effspec"]["required"]) and bool(case["ops"])
